@@ -8,12 +8,13 @@ EXTENDS ClientTransport
 CONSTANTS
   NReq,         \* requests submitted at most
   CBs,          \* subset of BOOLEAN: kinds of request (TRUE expects a response)
+  Classes,      \* subset of {"short", "long"}: timeout classes of requests
   Kinds,        \* subset of {"inter", "final", "abort"}
   CloseStats,   \* statuses the transport may be closed with
   MaxChunks,    \* chunks the peer sends at most
   MaxDepth,
   MinCloseDepth, \* Close is offered from this depth on (long random behaviours)
-  Script,       \* steps executed first, e.g. <<<<"Submit", TRUE>>, <<"Poll">>>>; then the free interleavings
+  Script,       \* steps executed first, e.g. <<<<"Submit", TRUE, "long">>, <<"Poll">>>>; then the free interleavings
   AllStale,     \* TRUE: chunks for every request id that is no longer pending; FALSE: only for the latest such id
   ForceClose    \* the last step of a behaviour closes the transport if it is still open
 
@@ -26,7 +27,10 @@ Targets == DOMAIN pending \cup {UnknownId}
            \cup (IF AllStale \/ NotPending = {} THEN NotPending ELSE {CHOOSE id \in NotPending : \A x \in NotPending : x <= id})
 
 Free ==
-  \/ \E cb \in CBs : Cardinality(DOMAIN subm) < NReq /\ Submit(Cardinality(DOMAIN subm) + 1, cb)
+  \* (the timeout class of a request that expects no response is immaterial: it never becomes pending)
+  \/ \E cb \in CBs, cls \in Classes : /\ Cardinality(DOMAIN subm) < NReq
+                                       /\ (cb \/ cls = CHOOSE c \in Classes : TRUE)
+                                       /\ Submit(Cardinality(DOMAIN subm) + 1, cb, cls)
   \/ Poll
   \/ \E id \in Targets, k \in Kinds : nextSeq <= MaxChunks /\ Chunk(id, k)
   \/ \E id \in DOMAIN pending : Expire(id)
@@ -34,7 +38,7 @@ Free ==
 
 SetupStep ==
   LET s == Script[depth + 1] IN
-  CASE s[1] = "Submit" -> Submit(Cardinality(DOMAIN subm) + 1, s[2])
+  CASE s[1] = "Submit" -> Submit(Cardinality(DOMAIN subm) + 1, s[2], s[3])
     [] s[1] = "Poll" -> Poll
     [] s[1] = "Chunk" -> Chunk(s[2], s[3])
     [] s[1] = "Expire" -> Expire(s[2])
